@@ -72,8 +72,9 @@ def verify_one(target):
         out["inlined"] = sorted(v.inlined)
         out["used"] = sorted(v.used_contracts)
         for o in obls:
-            item = dict(name=o.name, kind=o.kind, line=o.line, smt2=to_smt2(o, bg), path=o.extra.get("path"), note=o.extra.get("note"),
-                        goal=str(o.goal)[:1500], size=sum(len(str(a)) for a in o.assumptions) + len(str(o.goal)), excl={})
+            text = to_smt2(o, bg)
+            item = dict(name=o.name, kind=o.kind, line=o.line, smt2=text, path=o.extra.get("path"), note=o.extra.get("note"),
+                        goal=o.goal.sexpr()[:1500], size=len(text), excl={})
             for f in v.finding_specs:
                 if f.get("kind") and f["kind"] != o.kind:
                     continue
@@ -133,7 +134,7 @@ def verify_lemma(idx):
         o = Obligation("lemma:%s/lemma" % lem["name"], [], goal, "lemma", 0, {})
         r = discharge(o, bg, timeout_ms=10000 if _G["tier"] == "quick" else 60000, seed=_G["seed"])
         d = r.to_json()
-        d["size"] = len(str(goal))
+        d["size"] = len(goal.sexpr())
         out["results"].append(d)
     except Exception as e:
         out["error"] = "crash: %s\n%s" % (e, traceback.format_exc()[-1500:])
